@@ -160,6 +160,14 @@ void vf_os_plan_clear(void) {
   vf_os.fail_from = -1; vf_os.fail_kinds = 0;
 }
 
+void vf_os_dump(int fd_unused) {
+  (void)fd_unused;
+  fprintf(stderr, "--- OS call log (%ld calls, %ld refused)\n", vf_os.ncalls, vf_os.nfailed);
+  for (long k = 0; k < vf_os.ncalls && k < VF_MAX_CALLS; k++) { const vf_call_t* c = &vf_os.calls[k]; fprintf(stderr, "  #%ld %s%s addr=%p len=%zu arg=%d res=%p\n", k, vf_os_kind_name(c->kind), c->failed ? " [REFUSED]" : "", (void*)c->addr, c->len, c->arg, (void*)c->res); }
+  fprintf(stderr, "--- mappings\n");
+  for (int i = 0; i < vf_os.nregions; i++) { const vf_region_t* r = &vf_os.regions[i]; fprintf(stderr, "  [%p,%p) %zu KiB %s%s born=#%u\n", (void*)r->start, (void*)r->end, (r->end - r->start) / 1024, r->prot ? "rw" : "none", r->purged ? " purged" : "", r->born); }
+}
+
 /* ---------------- call log + fault plan -------------------------------------------------- */
 
 static bool plan_fails(int kind, long idx) {
